@@ -21,7 +21,8 @@
          arithmetic, (b) Dlinmin and WolfeCubic, which are not modelled.  Those are monitored on the C++.
      * C10_steepest_descent_direction_monotone   instance without hypothesis (direction -gradient; this is
          also the first step of every line-search optimiser).
-     * C10_box_feasible_partial           box constraints, backtracking: every iterate is feasible for every
+     * C10_box_feasible_partial, C10_box_feasible_slack_partial (the box widened by the 1e-13 slack of
+         BoxConstraintHandler::isFeasible, which is the test the code uses)   box constraints, backtracking: every iterate is feasible for every
          objective and every direction rule returning d with x + d in the box.  PARTIAL: that hypothesis is
          what LBFGS::computeSearchDirection checks at run time (SHARK_RUNTIME_CHECK "internal error");
          getBoxConstrainedDirection itself (dog-leg) is not modelled.  Satisfiable: proj_oracle_feasible.
@@ -31,9 +32,10 @@
          AbstractLineSearchOptimizer (+ m_count for CG) is the complete model state: restoring into ANY instance
          and continuing gives the same iterates.  PARTIAL w.r.t. the property: BFGS/L-BFGS/Adam/Rprop member
          lists are not modelled (monitored; C18 generates their field-coverage obligations).
-     * C10_steepestdescent_saverestore_repaired   the member list path, learning rate, momentum, derivative,
-         point, value is complete; the list coded in this tree (path, rate, momentum) is NOT:
-         steepestdescent_coded_restore_refuted in C10Proofs.v is a machine-checked counterexample (finding F16).
+     * C10_steepestdescent_saverestore_continues   the member list of SteepestDescent::read/write (path, learning
+         rate, momentum, derivative, point, value - as coded since the repair c36da89f of finding F16) is complete;
+         the earlier list (path, rate, momentum) was not: steepestdescent_coded_restore_refuted in C10Proofs.v is
+         a machine-checked counterexample.
 
    WHAT IS ONLY COMPARED (tools/c10.py, every run): the extracted model against the C++ on generated dyadic
    quadratics (exact equality of point, value, derivative, direction, step length, last point/derivative/value,
@@ -148,12 +150,12 @@ Theorem C10_cg_saverestore_continues :
 Proof. exact cg_saverestore_total_and_continues. Qed.
 Print Assumptions C10_cg_saverestore_continues.
 
-Theorem C10_steepestdescent_saverestore_repaired :
+Theorem C10_steepestdescent_saverestore_continues :
   forall (f : vec -> Q) (grad : vec -> vec) (fresh s s' : sd_state),
     sd_restore_full fresh (sd_save_full s) = Some s' ->
     forall n, sd_run f grad n s' = sd_run f grad n s.
 Proof. exact sd_saverestore_full_continues. Qed.
-Print Assumptions C10_steepestdescent_saverestore_repaired.
+Print Assumptions C10_steepestdescent_saverestore_continues.
 
 (* hypotheses are satisfiable / conclusions are not vacuous *)
 Example C10_ex_quadratic_run : strictly_decreasing (map val exq_trace) = true.
